@@ -60,12 +60,14 @@ def core : Core RrState where
   insert1 s _ k v a _ := insert1 s k v a
   find1 s _ k _ := find1 s k
   erase1 := erase1
+  hasClear := false
   clear s := s
   clean s _ := (s, 0)
   age s _ := (s, 0)
   updateTtl s _ := s
   size s := s.ents.length
   capacity s := s.cap
+  dlOf _ _ _ := 0
   look s _ k := (getE s.ents k).map (fun e => (e.val, 0))
 
 def init (cap : Nat) (rnd : List Nat) : RrState :=
